@@ -108,14 +108,15 @@ Definition c13_env_spec_ok (c : c13_env_case) : bool :=
 Definition c13_env_model_ok (c : c13_env_case) : bool :=
   let '(iv, tv, s, obs) := c in model_ok (ka_env iv tv (map dec_env s)) obs.
 
-(* a real BaseClient and a peer that sends surplus PINGRESPs: per ping (u unsolicited PINGRESPs
-   before its PINGREQ, r PINGRESPs after it) *)
-Definition c13_wire_case := (N * N * list (nat * nat) * c13_obs)%type.
+(* a real BaseClient and a peer that sends surplus / zero-delay PINGRESPs: per ping (u unsolicited
+   PINGRESPs before its PINGREQ, z PINGRESPs consumed by the reader before Transport.Write of the
+   PINGREQ returns, r PINGRESPs queued after that) *)
+Definition c13_wire_case := (N * N * list (nat * nat * nat) * c13_obs)%type.
 
 (* property: the first ping the peer did not answer decides, surplus PINGRESPs or not *)
 Definition c13_wire_spec_ok (c : c13_wire_case) : bool :=
   let '(iv, tv, urs, obs) := c in
-  let '(r, n) := spec_result (map (fun ur => match snd ur with O => Never | _ => Answered 0 end) urs) in
+  let '(r, n) := spec_result (map (fun x => let '(_, z, r) := x in match (z + r)%nat with O => Never | _ => Answered 0 end) urs) in
   impl_res_eqb (io_res obs) (expect r) && Nat.eqb (length (io_starts obs)) n
   && ticks_ok iv (io_starts obs) && elapsed_ok iv tv r n (io_elapsed obs).
 
